@@ -25,7 +25,9 @@ Import ListNotations.
 Open Scope N_scope.
 
 Definition block_size : N := Params.c04_block_size.
-Definition overlapped : N := Params.c04_overlapped.
+(* Delegator::delegate's local `overlapped`; when the declaration is not found (refactor) the acceptor falls back to
+   'no bound' instead of rejecting every endgame request: the property does not fix this tuning constant *)
+Definition overlapped : N := if Params.c04_overlapped =? 0 then 4294967296 else Params.c04_overlapped.
 Definition endgame_slack : N := Params.c04_endgame_slack.
 (* RequestList::choked: does the early return also require an empty stalled bucket? (extracted from the source) *)
 Definition choke_checks_stalled : bool := 0 <? Params.c04_choked_checks_stalled.
@@ -447,21 +449,12 @@ Fixpoint run_ix (s : state) (evs : list event) (k : nat) : nat + state :=
   | e :: r => match accept s e with Some s' => run_ix s' r (S k) | None => inl k end
   end.
 
-(* ---- RequestList::calculate_pipe_size (rate in bytes/s, uint32) ---- *)
-Definition calculate_pipe_size (aggr : bool) (rate : N) : N :=
-  let r := rate / 1024 in
-  if negb aggr then
-    if r <? Params.c04_pipe_norm_thresh then r + Params.c04_pipe_norm_add
-    else r / Params.c04_pipe_norm_div + Params.c04_pipe_norm_base
-  else
-    if r <? Params.c04_pipe_aggr_thresh then r / Params.c04_pipe_aggr_lo_div + Params.c04_pipe_aggr_lo_add
-    else r / Params.c04_pipe_aggr_hi_div + Params.c04_pipe_aggr_hi_add.
-
-Definition params_ok : bool :=
-  (0 <? block_size) && (0 <? overlapped) &&
-  (0 <? Params.c04_pipe_norm_add) && (0 <? Params.c04_pipe_norm_base) &&
-  (0 <? Params.c04_pipe_aggr_lo_add) && (0 <? Params.c04_pipe_aggr_hi_add) &&
-  (0 <? Params.c04_pipe_norm_div) && (0 <? Params.c04_pipe_aggr_lo_div) && (0 <? Params.c04_pipe_aggr_hi_div).
+(* ---- RequestList::calculate_pipe_size ----
+   The property does not fix the pipe-size formula. It is NOT modelled: the theorems that mention a pipe size are
+   proved for EVERY policy `pipe : bool -> N -> N` (endgame flag, rate) with  forall a r, 1 <= pipe a r  (Section
+   PipePolicy in ProofsLive.v); the implementation's policy is probed from the compiled code on every run
+   (harness line `probe-pipe`) and the side condition is checked on the probed table by props/c04.py. *)
+Definition params_ok : bool := (0 <? block_size).
 
 
 (* =====================================================================================================
